@@ -141,6 +141,16 @@ func c09Mutate(t *rapid.T, g *vocab.Gen, y reflect.Value, f vocab.Field) string 
 		return "item"
 	case vocab.KItems:
 		l := fv.Interface().(ap.ItemCollection)
+		switch rapid.IntRange(0, 3).Draw(t, "listmut") {
+		case 0:
+			fv.Set(reflect.ValueOf(append(l, g.ID("added"))))
+			return "list-member-added"
+		case 1:
+			if len(l) >= 2 {
+				fv.Set(reflect.ValueOf(l[:len(l)-1]))
+				return "list-member-dropped"
+			}
+		}
 		i := rapid.IntRange(0, len(l)-1).Draw(t, "member")
 		n, ok := changeItem(l[i])
 		if !ok {
@@ -159,6 +169,139 @@ func c09Mutate(t *rapid.T, g *vocab.Gen, y reflect.Value, f vocab.Field) string 
 		return "duration"
 	}
 	return ""
+}
+
+type c09Variant struct {
+	name string
+	y    ap.Item
+}
+
+// c09Variants enumerates deep copies of x that differ from it in exactly one change of field f (see the sensitivity layer).
+// Witnesses are identity-bearing: id-less links/objects are never the changed part, url lists are left alone, and language
+// lists with a repeated tag have no specified equality (C19).
+func c09Variants(x ap.Item, f vocab.Field) (out []c09Variant) {
+	fresh := 0
+	newID := func() ap.IRI { fresh++; return ap.IRI(fmt.Sprintf("https://changed.example.net/%d", fresh)) }
+	with := func(name string, mut func(fv reflect.Value) bool) {
+		y := vocab.CloneItem(x)
+		if mut(reflect.ValueOf(y).Elem().Field(f.Index)) {
+			out = append(out, c09Variant{name, y})
+		}
+	}
+	changeMember := func(it ap.Item) (ap.Item, bool) {
+		switch it.(type) {
+		case ap.IRI:
+			return newID(), true
+		case *ap.Link, ap.Link, ap.ItemCollection, ap.IRIs:
+			return nil, false
+		}
+		sv := reflect.ValueOf(it)
+		if sv.Kind() != reflect.Ptr || sv.IsNil() || sv.Elem().Kind() != reflect.Struct || sv.Elem().FieldByName("ID").Len() == 0 {
+			return nil, false
+		}
+		sv.Elem().FieldByName("ID").SetString(string(newID()))
+		return it, true
+	}
+	listVariants := func(get func(fv reflect.Value) ap.ItemCollection, set func(fv reflect.Value, l ap.ItemCollection)) {
+		l0 := get(reflect.ValueOf(x).Elem().Field(f.Index))
+		for i := range l0 {
+			i := i
+			with(fmt.Sprintf("member-id #%d", i), func(fv reflect.Value) bool {
+				l := get(fv)
+				n, ok := changeMember(l[i])
+				if ok {
+					l[i] = n
+				}
+				return ok
+			})
+		}
+		with("member-added last", func(fv reflect.Value) bool { set(fv, append(get(fv), newID())); return true })
+		with("member-added first", func(fv reflect.Value) bool { set(fv, append(ap.ItemCollection{newID()}, get(fv)...)); return true })
+		if len(l0) >= 2 {
+			with("member-dropped last", func(fv reflect.Value) bool { l := get(fv); set(fv, l[:len(l)-1]); return true })
+			with("member-dropped first", func(fv reflect.Value) bool { set(fv, get(fv)[1:]); return true })
+		}
+	}
+	fv0 := reflect.ValueOf(x).Elem().Field(f.Index)
+	if fv0.IsZero() {
+		return nil
+	}
+	switch f.Kind {
+	case vocab.KNLV:
+		n0 := fv0.Interface().(ap.NaturalLanguageValues)
+		seen := map[ap.LangRef]bool{}
+		for _, e := range n0 {
+			if seen[e.Ref] {
+				return nil
+			}
+			seen[e.Ref] = true
+		}
+		for i := range n0 {
+			i := i
+			with(fmt.Sprintf("text #%d", i), func(fv reflect.Value) bool {
+				n := fv.Interface().(ap.NaturalLanguageValues)
+				n[i].Value = append(append(ap.Content{}, n[i].Value...), " (changed)"...)
+				return true
+			})
+			with(fmt.Sprintf("tag #%d", i), func(fv reflect.Value) bool {
+				n := fv.Interface().(ap.NaturalLanguageValues)
+				n[i].Ref = "zz-changed"
+				return true
+			})
+		}
+		with("entry-added", func(fv reflect.Value) bool {
+			fv.Set(reflect.ValueOf(append(fv.Interface().(ap.NaturalLanguageValues), ap.LangRefValue{Ref: "zz-added", Value: ap.Content("added")})))
+			return true
+		})
+		if len(n0) >= 2 {
+			with("entry-dropped last", func(fv reflect.Value) bool {
+				n := fv.Interface().(ap.NaturalLanguageValues)
+				fv.Set(reflect.ValueOf(n[:len(n)-1]))
+				return true
+			})
+			with("entry-dropped first", func(fv reflect.Value) bool {
+				fv.Set(reflect.ValueOf(fv.Interface().(ap.NaturalLanguageValues)[1:]))
+				return true
+			})
+		}
+	case vocab.KItem:
+		if f.Name == "URL" {
+			return nil
+		}
+		if _, ok := fv0.Interface().(ap.ItemCollection); ok {
+			listVariants(func(fv reflect.Value) ap.ItemCollection { return fv.Interface().(ap.ItemCollection) },
+				func(fv reflect.Value, l ap.ItemCollection) { var it ap.Item = l; fv.Set(reflect.ValueOf(&it).Elem()) })
+			return out
+		}
+		with("item-id", func(fv reflect.Value) bool {
+			n, ok := changeMember(fv.Interface().(ap.Item))
+			if ok {
+				fv.Set(reflect.ValueOf(&n).Elem())
+			}
+			return ok
+		})
+	case vocab.KItems:
+		listVariants(func(fv reflect.Value) ap.ItemCollection { return fv.Interface().(ap.ItemCollection) },
+			func(fv reflect.Value, l ap.ItemCollection) { fv.Set(reflect.ValueOf(l)) })
+	case vocab.KTime:
+		with("instant +1h", func(fv reflect.Value) bool {
+			fv.Set(reflect.ValueOf(fv.Interface().(time.Time).Add(time.Hour)))
+			return true
+		})
+		with("instant -1s", func(fv reflect.Value) bool {
+			fv.Set(reflect.ValueOf(fv.Interface().(time.Time).Add(-time.Second)))
+			return true
+		})
+	case vocab.KDur:
+		with("duration +3s", func(fv reflect.Value) bool {
+			fv.SetInt(fv.Int() + int64(3*time.Second))
+			if fv.Int() == 0 {
+				fv.SetInt(int64(time.Second))
+			}
+			return true
+		})
+	}
+	return out
 }
 
 func TestC09(t *testing.T) {
@@ -233,6 +376,55 @@ func TestC09(t *testing.T) {
 		}
 		r.Cells(len(cells)+len(vocab.StructTypes), done)
 		r.Exhaustive("cells", !r.Replaying())
+	}
+
+	// sensitivity, deterministic: every single-cell value whose field is an object-core property (or an activity property of a transitive
+	// activity) x every single change of that property: another text / tag / one entry more or fewer, another IRI, another id of an
+	// embedded object, another id of one list member, one member more or fewer, another instant, another duration
+	if r.WantLayer("sensitivity", true) {
+		cells, _ := vocab.SingleCells(true)
+		done, total := 0, 0
+		for _, c := range cells {
+			if c.Type.Name() == "Link" {
+				continue
+			}
+			_, core := vocab.FieldByName(vocab.StructType("Object"), c.Field.Name)
+			inScope := core && !c09CoreSkip[c.Field.Name]
+			if c.Type.Name() == "Activity" {
+				for _, an := range c09ActivityFields {
+					inScope = inScope || an == c.Field.Name
+				}
+			}
+			if !inScope {
+				continue
+			}
+			for _, v := range c09Variants(c.Value, c.Field) {
+				total++
+				cell := c.ID + " / " + v.name
+				if !r.WantCell(cell) {
+					continue
+				}
+				done++
+				r.Case(cell+vocab.Dump(c.Value), true, "sensitivity change="+strings.Fields(v.name)[0], "sensitivity kind="+string(c.Field.Kind))
+				if done%211 == 0 {
+					r.Sample(cell, map[string]interface{}{"layer": "sensitivity", "cell": c.ID, "change": v.name, "x": vocab.Dump(c.Value), "y": vocab.Dump(v.y)})
+				}
+				for _, ord := range []string{"x,y", "y,x"} {
+					a, b := c.Value, v.y
+					if ord == "y,x" {
+						a, b = v.y, c.Value
+					}
+					if res, key, detail := c09Equal(a, b); key != "" {
+						r.Report("sensitivity", cell, key+" "+ord, detail, cell)
+					} else if res {
+						r.Report("sensitivity", cell, "eq sens prop "+c.Type.Name()+"."+c.Field.Name, fmt.Sprintf("a copy with a changed %s (%s) is still equal (%s): x = %s, copy = %s",
+							c.Field.Name, v.name, ord, clipStr(vocab.Dump(c.Value), 400), clipStr(vocab.Dump(v.y), 400)), cell)
+					}
+				}
+			}
+		}
+		r.Cells(total, done)
+		r.Exhaustive("sensitivity", !r.Replaying())
 	}
 
 	// reflexivity of lists that hold nil-like members (nil, nil pointer, empty IRI, the "-" IRI) next to real ones, alone and
